@@ -997,7 +997,10 @@ func (w *Worker) Nack(ctx context.Context, batch *Batch, taskID string) error {
 			// Both are fatal, so classification is unaffected either way — this
 			// is about not throwing away the cause.
 			if err != nil {
-				return cerrors.FatalError(cerrors.Errorf("%w (while handling: %w)", posErr, err))
+				// Join, not Errorf with two %w: cerrors.Errorf is xerrors.Errorf,
+				// which supports a single %w and otherwise wraps neither operand,
+				// dropping posErr's code and err from the chain.
+				return cerrors.FatalError(cerrors.Join(posErr, cerrors.Errorf("while handling: %w", err)))
 			}
 			return cerrors.FatalError(posErr)
 		}
